@@ -1,7 +1,10 @@
+mod c04;
 mod c11;
 mod c14;
 mod interp;
+mod gen_ss;
 mod session;
+mod stream;
 mod util;
 
 use serde_json::json;
@@ -26,6 +29,7 @@ fn main() {
             let mut s = session::Session::new();
             let mut rng = util::Rng::new(seed);
             match prop {
+                "C04" => c04::generate(&mut s, tier, &mut rng),
                 "C11" => c11::generate(&mut s, tier, &mut rng),
                 "C14" => c14::generate(&mut s, tier, &mut rng),
                 _ => {
